@@ -58,6 +58,7 @@ type Config struct {
 	SamePrefixIncludes   bool // one file including two files with equal base names
 	SetOfContainers      bool // set<list<…>> with defaults etc.
 	KeywordNames         bool // Go keywords in the stress name pool
+	ExponentDoubles      bool // 1.5e-3: the parser takes the exponent for the value (DESIGN §7, C03)
 	DupThrows            bool // the same exception type twice in one throws list (duplicate case in the processor's type switch)
 }
 
@@ -959,7 +960,8 @@ func (g *gen) qualify(fi int, ref NamedRef) string {
 	return g.p.Files[ref.File].Prefix() + "." + ref.Name
 }
 
-var niceDoubles = []string{"0.0", "1.0", "-1.0", "2.5", "-0.125", "3.14159", "1e10", "1.5e-3", "6.02E23", "100.25", ".5", "-2.0e0"}
+var niceDoubles = []string{"0.0", "1.0", "-1.0", "2.5", "-0.125", "3.14159", "100.25", ".5", "-.25", "+7.0", "123456.789", "0.1"}
+var expDoubles = []string{"1e10", "1.5e-3", "6.02E23", "-2.0e0", "1E+2"}
 var niceStrings = []string{"", "a", "hello", "Hello World", "x_y", "0", "true", "a/b", "#tag", "αβ", "tab\there", "%d%s", "/* c */", "// c", "{}", "[1,2]"}
 
 // constOf generates a constant expression of type t as seen from file fi. top: the expression is a field
@@ -1019,6 +1021,9 @@ func (g *gen) constOf(fi int, t *Type, depth int, top bool) *Const {
 			return &Const{Kind: CInt, Text: strconv.FormatInt(v, 10), Val: values.Double(math.Float64bits(float64(v)))}
 		}
 		txt := niceDoubles[g.r.Intn(len(niceDoubles))]
+		if g.cfg.ExponentDoubles && g.r.Chance(30) {
+			txt = expDoubles[g.r.Intn(len(expDoubles))]
+		}
 		fv, err := strconv.ParseFloat(txt, 64)
 		if err != nil {
 			panic(err)
